@@ -78,7 +78,17 @@ class Fills(bt.Algo):
         return True
 
 
-USER_ALGOS = {"QuietFlow": QuietFlow, "SetCash": SetCash, "Fills": Fills}
+class Peek(bt.Algo):
+    """a monitoring user algo: reads the strategy's aggregated reports before the stack trades"""
+
+    def __call__(self, target):
+        target.positions
+        target.outlays
+        len(target.members)
+        return True
+
+
+USER_ALGOS = {"QuietFlow": QuietFlow, "SetCash": SetCash, "Fills": Fills, "Peek": Peek}
 
 
 def mk_algo(d, ctx):
@@ -200,7 +210,7 @@ PERIODIC = {"daily", "weekly", "monthly", "monthly_eop", "quarterly", "yearly"}
 
 def _sched(rng, kind, nd):
     if kind == "daily":
-        return {"a": "RunDaily", "kw": {"run_on_first_date": rng.random() < 0.8}}
+        return {"a": "RunDaily", "kw": {"run_on_first_date": rng.random() < 0.8, "run_on_last_date": rng.random() < 0.5}}
     if kind == "weekly":
         return {"a": "RunWeekly", "kw": {"run_on_first_date": rng.random() < 0.7, "run_on_last_date": rng.random() < 0.2}}
     if kind == "monthly":
@@ -383,6 +393,9 @@ def gen_stack(rng, rs, spec, names, priced, prefix, opts, is_child=False):
         st.append({"a": "PTE_Rebalance", "args": [rng.choice([0.01, 0.03, 0.08]), {"$frame": fn}], "kw": {"lookback": {"$off": {"days": 20}}, "lag": lag}})
         st.append({"a": "WeighTarget", "args": [fn]})
         desc.append("pte")
+    if opts.get("peek") and rng.random() < opts["peek"]:
+        st.insert(1, {"a": "Peek"})
+        desc.append("peek")
     if opts.get("fills") and priced and rng.random() < opts["fills"]:
         fl = []
         for _ in range(rng.randint(1, 3)):
